@@ -3,3 +3,8 @@ Require Import Puan.Base Puan.Plog Puan.Sem Puan.Corr Puan.Cons.
 
 Definition check_build (c : idtable * form * prop) : bool :=
   let '(t, f, obs) := c in prop_eqb (build (genid_of t) f) obs.
+
+Require Import Puan.Config.
+(* StingyConfigurator.add: observed = Some result, or None when the implementation raised *)
+Definition check_add (c : idtable * prop * prop * option prop) : bool :=
+  let '(t, cfg, r, obs) := c in opt_eqb prop_eqb (stingy_add (genid_of t) cfg r) obs.
